@@ -80,6 +80,15 @@ CLAIMED['C01'] = dict(
          'statement holds for all grammars (including recursive ones) and all inputs as partial correctness.',
     ref='5/C01')
 
+CLAIMED['C11'] = dict(
+    technique='abstract execution of rule bodies over consuming/nullable placeholders vs the abstract grammar read off analyze_insert<> instantiations; truth-table extraction of work(); bounded-exhaustive check of the traversal',
+    text='Soundness direction only (false positives of analyze() are not required to be absent). (A) For ~400 instantiations of every rule template over consuming/nullable placeholders '
+         'the body is executed abstractly (nullability, left-callable sub-rules, loops that can iterate without progress) and compared with the abstract grammar (Name, type_v, subs) that the '
+         'front end instantiates for analyze<R>; traits that inline a sub-rule are checked through self-recursive witness types. (B) work()/problems() are reduced to a truth table that must '
+         'equal the reference DFS, and the reference DFS must report every left-call cycle on all abstract grammars up to the size bound. This covers the quadratic rule x position family of '
+         'ill-formed grammars the tests only sample.',
+    ref='4.5, 5/C11')
+
 NOT_YET = 'check not built yet in this round (see DESIGN.md section 10 for the order of construction); no claim is made'
 
 NA_REASONS = {}
